@@ -386,10 +386,42 @@ pub const SIGIL_UNITS: &[&str] = &[
     "#;", "#;a ", "#|", "#!", "#'", "#`", "#,", "#,@", "#&", "#=", "##", "#:", "#\\", "#%", "#<", "\\", "|", "{", "}", "?", "?\\", "?\\C-", ".", ". ", "@", ":", "::", "-", "+", "1.", "1e", "#x", "#e", "#i", "^", "~", "_", "\"\" ", "#u8", "#u8()",
 ];
 
+/// (prefix, unit, Emacs options): one token opener followed by 10^6 repetitions of
+/// a modifier / escape / digit group inside that single token.
+pub const PREFIXED_UNITS: &[(&str, &str, bool)] = &[
+    ("?", "\\C-", true),
+    ("?", "\\M-", true),
+    ("?", "\\S-", true),
+    ("?\\", "^", true),
+    ("?", "\\", true),
+    ("\"", "\\C-", true),
+    ("\"", "\\x41", true),
+    ("\"", "\\101", true),
+    ("\"", "\\\n", true),
+    ("\"", "\\x41;", false),
+    ("\"", "\\\n  ", false),
+    ("#\\", "x", false),
+    ("#\\x", "0", false),
+    ("#", "#", false),
+    ("#x", "0", false),
+    ("1e", "0", false),
+    ("1.", "0", false),
+    ("#u8(", "#x1 ", false),
+    ("'", "'", false),
+    ("a", ":", false),
+    ("#:", ":", false),
+];
+
 /// `vcheck child c03-flat <unit> <reps> <shape> <api> <src>`
 pub fn child_flat(args: &[String]) -> i32 {
     let ui = args[0].parse::<usize>().unwrap();
-    let unit = if ui >= 1000 { SIGIL_UNITS[ui - 1000] } else { FLAT_UNITS[ui].1 };
+    let (prefix, unit, elisp) = if ui >= 2000 {
+        PREFIXED_UNITS[ui - 2000]
+    } else if ui >= 1000 {
+        ("", SIGIL_UNITS[ui - 1000], false)
+    } else {
+        ("", FLAT_UNITS[ui].1, false)
+    };
     let reps: usize = args[1].parse().unwrap();
     let shape = args[2].clone();
     let api = args[3].clone();
@@ -398,6 +430,7 @@ pub fn child_flat(args: &[String]) -> i32 {
     if shape == "in-list" {
         text.push('(');
     }
+    text.push_str(prefix);
     for _ in 0..reps {
         text.push_str(unit);
     }
@@ -409,7 +442,7 @@ pub fn child_flat(args: &[String]) -> i32 {
     let h = std::thread::Builder::new()
         .stack_size(2 * 1024 * 1024)
         .spawn(move || {
-            let o = Q::default_().to_lexpr();
+            let o = if elisp { Q::elisp().to_lexpr() } else { Q::default_().to_lexpr() };
             let mut items = 0u64;
             let mut errs = 0u64;
             macro_rules! drain {
@@ -756,6 +789,42 @@ pub fn sets(ctx: &Ctx) -> Vec<CaseSet> {
                     ),
                     Exit::Timeout => rep.inconclusive(format!("child watchdog fired for sigil run {:?}", name)),
                     other => rep.inconclusive(format!("sigil child {:?} ended unexpectedly: {:?} {}", name, other, r.stderr_tail)),
+                }
+            }
+        }),
+    ));
+    // ---- one token with 10^6 repetitions of an escape / modifier / digit inside it
+    out.push(CaseSet::new(
+        "million-repetitions-inside-one-token-children",
+        PREFIXED_UNITS.len() as u64,
+        Box::new(move |rep, _rng, case| {
+            let (prefix, unit, elisp) = PREFIXED_UNITS[case as usize];
+            let me = std::env::current_exe().unwrap().to_string_lossy().to_string();
+            let mut bins = vec![("mon", me)];
+            if let Ok(d) = std::env::var("VH_DEV_BIN") {
+                if !d.is_empty() {
+                    bins.push(("dev", d));
+                }
+            }
+            let combos = [("top-level", "value", "slice"), ("in-list", "value", "reader"), ("top-level", "datum", "reader"), ("top-level", "value", "str")];
+            let (shape, api, src) = combos[(case as usize) % combos.len()];
+            let reps = if thorough { 1_000_000 } else { 300_000 };
+            for (label, bin) in bins {
+                let args: Vec<String> = vec!["child".into(), "c03-flat".into(), (2000 + case).to_string(), reps.to_string(), shape.into(), api.into(), src.into()];
+                let r = child::run(&bin, &args, Duration::from_secs(600));
+                rep.eval();
+                rep.count("in-token-child:ran");
+                rep.distinct(hash2(hash_bytes(prefix.as_bytes()), hash2(hash_bytes(unit.as_bytes()), hash2(case, label.len() as u64 + 900))));
+                match &r.exit {
+                    Exit::Code(0) if r.stdout.contains("RESULT items=") => rep.count("in-token-child:completed"),
+                    _ if r.stack_overflow() => rep.violation(
+                        "stack-overflow",
+                        format!("C03:stack-overflow:inside-token:{}{}", prefix, unit.trim()),
+                        format!("{:?} followed by {:?} x {} ({}, {} api, {} source, {} options, {} build, 2 MiB thread): process died of stack overflow ({:?})", prefix, unit, reps, shape, api, src, if elisp { "Emacs" } else { "default" }, label, r.exit),
+                        json!({"prefix": prefix, "unit": unit, "shape": shape, "api": api, "src": src, "build": label, "reps": reps}),
+                    ),
+                    Exit::Timeout => rep.inconclusive(format!("child watchdog fired for {:?}+{:?}", prefix, unit)),
+                    other => rep.inconclusive(format!("in-token child {:?}+{:?} ended unexpectedly: {:?} {}", prefix, unit, other, r.stderr_tail)),
                 }
             }
         }),
